@@ -173,3 +173,11 @@ M("c07-chunk-lat-edge", "C07", ("samplers.py", "        lat_d = HALFPI - self.sy
 M("c07-filter-sorts-caller-array", "C07", ("samplers.py", "        corner_lonlats = np.asarray(tile.corners)\n        return tile_intersects_latlon_bbox(", "        corner_lonlats = np.asarray(tile.corners)\n        if isinstance(tile.corners, np.ndarray) and tile.corners.flags.writeable:\n            tile.corners[:, 0].sort()\n        return tile_intersects_latlon_bbox("))
 M("c07-no-lon-delta", "C07", ("samplers.py", "            refined_lon += 360 * deltas[e]\n", ""))
 M("c07-coarse-grid-inset", "C07", ("samplers.py", "        coarse_idx1 = np.linspace(0.5, naxis1 + 0.5, N_COARSE)", "        coarse_idx1 = np.linspace(1, naxis1, N_COARSE)"))
+
+# ---- C20
+M("c20-key-list-ignored", "C20", ("collection.py", "                    wcs_key = self._wcs_key[path_index]", "                    wcs_key = self._wcs_key[0]"))
+M("c20-hdu-list-first", "C20", ("collection.py", "                    hdu_index = self._hdu_index[path_index]\n                    hdu = hdul[hdu_index]", "                    hdu_index = self._hdu_index[path_index]\n                    hdu = hdul[self._hdu_index[0]]"))
+M("c20-default-skips-primary", "C20", ("collection.py", "                    for hdu_index, hdu in enumerate(hdul):\n                        if (", "                    for hdu_index, hdu in enumerate(hdul):\n                        if hdu_index == 0 and len(hdul) > 1:\n                            continue\n                        if ("))
+M("c20-args-list-reversed", "C20", ("collection.py", '                    index = list(map(int, settings.hdu_index.split(",")))', '                    index = sorted(map(int, settings.hdu_index.split(",")))'))
+M("c20-export-wrong-index", "C20", ("collection.py", "                yield fits_path, hdu_index, hdu, wcs_key", "                yield fits_path, (0 if self._hdu_index is None else hdu_index), hdu, wcs_key"))
+M("c20-load-drops-key", "C20", ("collection.py", "    loader.wcs_key = wcs_key\n    loader.blankval = blankval", "    loader.wcs_key = wcs_key if isinstance(wcs_key, str) else ' '\n    loader.blankval = blankval"))
